@@ -565,6 +565,26 @@ func (g *G) Slice(arr X, lo, hi *X) X {
 	return X{T: t, Toks: toks, Prec: PrecPrimary}
 }
 
+// Match builds the MySQL full-text predicate MATCH(cols) AGAINST (search [mode words]) in the library's
+// representation: a binary AGAINST whose right operand is a call named AGAINST holding the search
+// expression and, if present, the mode words as one string.
+func (g *G) Match(cols []X, search X, mode string) X {
+	m := g.Call("MATCH", cols, CallOpts{})
+	g.P.Functions["AGAINST"] = true
+	args := []*dump.T{search.T}
+	toks := cat(m.Toks, one(sym("AGAINST")), one(sym("(")), g.wrap(search, PrecPrimary))
+	for _, w := range strings.Fields(mode) {
+		toks = append(toks, sym(w))
+	}
+	if mode != "" {
+		args = append(args, dump.N("LiteralValue", "Value", mode, "Type", "STRING"))
+	}
+	toks = append(toks, sym(")"))
+	against := dump.N("FunctionCall", "Name", "AGAINST", "Distinct", false)
+	against.Set("Arguments", args)
+	return X{T: dump.N("BinaryExpression", "Left", m.T, "Operator", "AGAINST", "Right", against), Toks: toks, Prec: PrecPrimary}
+}
+
 func (g *G) Interval(content string) X {
 	g.P.Forbidden[content] = true
 	return X{T: dump.N("IntervalExpression", "Value", content), Toks: cat(kw("INTERVAL"), one(sym("'"+content+"'"))), Prec: PrecPrimary}
